@@ -20,7 +20,7 @@ def main():
     if '--tier' in sys.argv:
         tier = sys.argv[sys.argv.index('--tier') + 1]
         args = [a for a in args if a != tier]
-    mdir, props = args[0], args[1:]
+    mdir, props = os.path.abspath(args[0]), args[1:]
     patch = os.path.join(mdir, 'patch.diff')
     st = sh('git -C %s status --porcelain' % REPO).stdout.strip()
     if st:
@@ -42,7 +42,16 @@ def main():
         for p in props:
             c = sh('cd %s && /venv/bin/python -m harness.check %s --tier %s' % (VERIF, p, tier))
             tail = [l for l in c.stdout.splitlines() if l.startswith(('VIOLATION', 'KNOWN', '# C', '# DIS', '# INFRA'))]
-            print('%s rc=%d\n  %s' % (p, c.returncode, '\n  '.join(tail[-6:])))
+            print('%s rc=%d\n  %s' % (p, c.returncode, '\n  '.join(tail[-40:])))
+            import glob, json
+            for f in sorted(glob.glob(os.path.join(VERIF, 'evidence', 'replay', p + '_*.json'))):
+                try:
+                    j = json.load(open(f))
+                    sig = j.get('signature') or {}
+                    print('  CAUGHT-BY stream=%s class=%s :: %s' % (j.get('stream') or sig.get('stream'), sig.get('class') or j.get('kind'),
+                                                                (j.get('message') or '')[:140].replace('\n', ' ')))
+                except Exception:  # noqa
+                    pass
     finally:
         sh('git -C %s reset -q --hard HEAD' % REPO)
         sh('git -C %s clean -fdq -- t4_geom_convert MIP' % REPO)
